@@ -53,6 +53,8 @@ pub struct Case {
     pub decisions: Vec<u8>,
     /// keys whose raw resolve succeeds alone (eligible for the end-of-thread guard probe)
     pub probe_ok: Vec<u64>,
+    /// replay only: the thread id handed out just before the simulated threads were spawned
+    pub thread_ids_from: Option<u64>,
 }
 
 impl Case {
@@ -68,6 +70,7 @@ impl Case {
             "evict_at": self.evict_at,
             "decisions": decisions,
             "probe_ok": self.probe_ok,
+            "thread_ids_from": self.thread_ids_from,
         })
     }
     pub fn from_json(j: &J, repo: &str) -> Option<Case> {
@@ -84,6 +87,7 @@ impl Case {
             sched_seed: 0,
             decisions: j.get("decisions")?.as_array()?.iter().filter_map(|x| x.as_u64()).map(|x| x as u8).collect(),
             probe_ok: j.get("probe_ok").and_then(|x| x.as_array()).map(|a| a.iter().filter_map(|x| x.as_u64()).collect()).unwrap_or_default(),
+            thread_ids_from: j.get("thread_ids_from").and_then(|x| x.as_u64()),
         })
     }
 }
@@ -101,6 +105,8 @@ pub struct Outcome {
     pub computes: u64,
     pub compute_overlap: u64,
     pub load_error: Option<String>,
+    /// the thread id handed out just before the simulated threads were spawned
+    pub thread_probe: u64,
 }
 
 fn run_ops<R: Resolve>(file: &SimFile, res: &R, own: bool, ops: &[Op], probe_keys: &[u64], out: &mut Vec<Answer>) {
@@ -130,6 +136,7 @@ pub fn run_case(case: &Case) -> Outcome {
                 computes: 0,
                 compute_overlap: 0,
                 load_error: Some(crate::digest::error_kind(&e)),
+                thread_probe: 0,
             }
         }
     };
@@ -179,6 +186,10 @@ pub fn run_case(case: &Case) -> Outcome {
             b
         })
         .collect();
+    let thread_probe = match case.thread_ids_from {
+        Some(t) => sched::advance_thread_ids_to(t),
+        None => sched::thread_id_probe(),
+    };
     let (results, ro) = sched.run(bodies, 64 << 20);
     let mut answers = vec![];
     let mut panics = vec![];
@@ -226,6 +237,7 @@ pub fn run_case(case: &Case) -> Outcome {
         computes: ctl.computes.load(Ordering::Relaxed),
         compute_overlap: ctl.compute_overlap.load(Ordering::Relaxed),
         load_error: None,
+        thread_probe,
     }
 }
 
@@ -314,11 +326,12 @@ fn explained_sequentially(case: &Case, observed: &[Option<Vec<Answer>>], with_ev
 pub struct C13 {
     pool: Option<Pool>,
     alone: crate::alone::Alone,
+    last_probe: u64,
 }
 
 impl C13 {
     pub fn new() -> C13 {
-        C13 { pool: None, alone: crate::alone::Alone::new() }
+        C13 { pool: None, alone: crate::alone::Alone::new(), last_probe: 0 }
     }
 
     fn alone_answer(&mut self, doc: &Doc, tolerant: bool, op: &Op) -> Answer {
@@ -465,7 +478,7 @@ impl C13 {
                 }
             }
         }
-        Case { doc, tolerant, obj_cache, stm_cache, sharing, threads, evict_at, policy, sched_seed: rng.next_u64(), decisions: vec![], probe_ok }
+        Case { doc, tolerant, obj_cache, stm_cache, sharing, threads, evict_at, policy, sched_seed: rng.next_u64(), decisions: vec![], probe_ok, thread_ids_from: None }
     }
 
     /// Evaluate the oracle on one executed case.
@@ -557,6 +570,7 @@ impl C13 {
             match v.iter().find(|(s, _)| s == sig) {
                 Some((_, d)) => {
                     *detail = d.clone();
+                    me.last_probe = out.thread_probe;
                     Some(out.decisions)
                 }
                 None => None,
@@ -708,7 +722,10 @@ impl Check for C13 {
         rep.count("wrong_type_ops", wrong as u64);
         let verdicts = self.judge(&case, &out, &mut rep);
         for (sig, mut detail) in verdicts {
-            let (c, d) = self.shrink(&case, &out.decisions, &sig, &mut detail);
+            self.last_probe = out.thread_probe;
+            let (mut c, d) = self.shrink(&case, &out.decisions, &sig, &mut detail);
+            // the run that showed the (minimised) violation started its threads at this thread id
+            c.thread_ids_from = Some(self.last_probe);
             rep.violations.push(Violation { signature: sig, detail, case: c.to_json(&d) });
         }
         if i < 3 {
